@@ -65,9 +65,11 @@ def run_case(case):
         kw = dict(method=m)
         if cls != 'Hessian':
             kw['order'] = o
+        if cls == 'Gradient':
+            kw['n'] = n
     else:
         rec = Recorder(f_vector_of(dim, 2 + dim % 3))
-        kw = dict(method=m, order=o)
+        kw = dict(method=m, order=o, n=n)
     kw.update(skw)
     if isinstance(kw.get('step'), tuple):
         from numdifftools.step_generators import MinStepGenerator, MaxStepGenerator
@@ -113,7 +115,14 @@ def run_case(case):
             xi = np.atleast_1d(x).ravel()
         else:
             xi = np.atleast_1d(x)
-        d(x, *rnd_args, **rnd_kwds)
+        raised = None
+        try:
+            d(x, *rnd_args, **rnd_kwds)
+        except Exception as ex:
+            # the call failed: whatever it evaluated before failing must still have been admissible
+            raised = '%s: %r' % (type(ex).__name__, ex)
+            if not rec.calls:
+                return dict(error=raised, case=case_key(case))
         steps = list(d.step(xi, d.method, d.n, d.method_order))
     except Exception as ex:
         return dict(error='%s: %r' % (type(ex).__name__, ex), case=case_key(case))
@@ -122,8 +131,8 @@ def run_case(case):
         tok = (a == rnd_args and k == rnd_kwds)
         evs.append(project(arg, xi, steps, cls == 'Derivative', tok))
     cfg = dict(cls=cls, m=m, n=int(d.n), o=int(d.order) if cls != 'Hessian' else 2, dim=1 if cls == 'Derivative' else int(xi.size),
-               N=len(steps), label=label, key=case_key(case))
-    return dict(cfg=cfg, ev=evs)
+               N=len(steps), label=label, key=case_key(case), partial=1 if raised else 0)
+    return dict(cfg=cfg, ev=evs, raised=raised)
 
 
 def case_key(case):
@@ -154,6 +163,11 @@ def make_cases(tier, seed):
                     for label, skw in step_variants(rnd, m, quick)[:(2 if quick else 4)]:
                         xv = [rnd.choice([-3.0, 0.5, 2.25, 17.0, 0.0]) for _ in range(dim)]
                         cases.append((cls, m, 1, o, dim, label, skw, xv, rnd.random() < 0.5, rnd.random() < 0.5, None))
+                    # pure n-th partial derivatives (n > 1): one random higher n per (class, method, order, dimension)
+                    for nn in ([rnd.randint(2, 6)] if quick else [2, 3, 4, 5, 6]):
+                        label, skw = step_variants(rnd, m, quick)[0]
+                        xv = [rnd.choice([-3.0, 0.5, 2.25, 17.0, 0.0]) for _ in range(dim)]
+                        cases.append((cls, m, nn, o, dim, label, skw, xv, rnd.random() < 0.5, rnd.random() < 0.5, None))
     for m in methods5 + ['central2']:
         for o in [2, 4, 6]:
             for dim in dims:
@@ -237,11 +251,15 @@ def run(tier, rep):
     out = vlib.pool_map(run_case, cases, chunksize=8)
     traces = []
     for c, r in zip(cases, out):
-        if 'error' in r:
-            if 'Multicomplex method only support' in r['error'] or 'num_steps' in r['error'] and 'must  be larger' in r['error']:
+        err = r.get('error') or r.get('raised')
+        if err:
+            benign = ('Multicomplex method only support' in err or ('num_steps' in err and 'must  be larger' in err)
+                      or ("JacobianDifferenceFunctions' object has no attribute" in err)      # Gradient/Jacobian: complex n = 3, 4 and multicomplex n = 2 have no rule
+                      or (c[0] in ('Gradient', 'Jacobian') and c[2] > 1 and 'fun did not return data of correct size' in err))
+            if not benign:
+                rep.violation('raises:' + (r.get('case') or r['cfg']['key']), dict(case=r.get('case') or r['cfg']['key']), 'call raised %s' % err)
+            if 'error' in r:
                 continue
-            rep.violation('raises:' + r['case'], dict(case=r['case']), 'call raised %s' % r['error'])
-            continue
         traces.append(r)
     if not traces:
         raise vlib.MachineryError('no traces recorded')
